@@ -1366,8 +1366,11 @@ ASSUMPTIONS = ['callbacks do not call back into the tracker (they may raise: C13
                'the correspondence only)',
                'the clock is read at most at one value during one operation']
 TRUSTED_EXTRA = ['Prim/IntDict.v: dict insertion order, assignment to an existing key keeps its position, popitem() is LIFO; '
-                 'sorted() is stable (modelled by insertion sort); iteration order of a set of ints is unspecified (events of '
-                 'one expiry are compared per MMSI)',
+                 'sorted() is stable (modelled by insertion sort); iterating a set of ints visits exactly its elements, in '
+                 "an order the model takes as a parameter (the check reads it off the implementation's DELETED deliveries; "
+                 'Props/C13.v C13_driver_environments_ok)',
+                 'a callback is a function of (its number, the event, the track) during one operation: it returns or raises an '
+                 'exception of a class of Prim/Exn.v; `except KeyError` catches exactly KeyError (no modelled subclass)',
                  'messages reach the model as data: for every AISTrack field (dataclasses.fields) whether the decoded message '
                  'has the attribute (attr.fields) and its value as an opaque token']
 NEEDED = {
